@@ -49,7 +49,15 @@ type Parsed struct {
 	// Why names the first reason.
 	Judged bool
 	Why    string
+	// Empties counts the empty list elements that were skipped (RFC 7230 section 7: "a recipient MUST parse and
+	// ignore a reasonable number of empty list elements"; they are no ranges)
+	Empties int
 }
+
+// JudgeEmptyElements: empty list elements (",a/b", "a/b,,c/d", "a/b, ,c/d", "a/b,") are inside the judged
+// grammar: the strict parser skips them (RFC 7230 section 7) and the generators insert them. (The library
+// used to drop the rest of a field line at the first empty element: repaired, see DESIGN 9.3.)
+var JudgeEmptyElements = true
 
 func isOWS(b byte) bool { return b == ' ' || b == '\t' }
 
@@ -309,6 +317,13 @@ func ParseStrict(lines []string, media bool) Parsed {
 		}
 		p.ows()
 		for p.pos < len(p.s) {
+			if p.s[p.pos] == ',' && JudgeEmptyElements {
+				// an empty list element (at the start of the line, or after another comma): skipped
+				res.Empties++
+				p.pos++
+				p.ows()
+				continue
+			}
 			rg, rok := p.rangeElem()
 			if !rok {
 				ok = false
@@ -326,6 +341,10 @@ func ParseStrict(lines []string, media bool) Parsed {
 			p.pos++
 			p.ows()
 			if p.pos >= len(p.s) {
+				if JudgeEmptyElements {
+					res.Empties++ // a trailing comma: one more empty element
+					break
+				}
 				ok = p.fail("empty-element-or-garbage")
 				break
 			}
@@ -374,13 +393,32 @@ func nearTie(rs []Range) bool {
 	return false
 }
 
-// NormOffer strips the parameters of an offer ("parameters ignored").
+// NormOffer strips the parameters of an offer ("parameters ignored"), and the optional whitespace that may
+// precede the ';' (RFC 7231 3.1.1.1: type "/" subtype *( OWS ";" OWS parameter )).
 func NormOffer(o string) string {
 	if i := strings.IndexByte(o, ';'); i >= 0 {
-		return o[:i]
+		return strings.TrimRight(o[:i], " \t")
 	}
 	return o
 }
+
+// JudgeOWSBeforeSemicolon: declared media types (consumes / produces entries, API defaults, offers) spelled with
+// whitespace before the ';' are generated by C06, C07 and C08; the oracles read them as the same media type
+// (RFC 7231 section 3.1.1.1). (The library used to keep the blank: repaired, see DESIGN 9.3.)
+var JudgeOWSBeforeSemicolon = true
+
+// HasOWSBeforeSemicolon reports whether one of the media types is spelled with whitespace before its ';'.
+func HasOWSBeforeSemicolon(types ...string) bool {
+	for _, t := range types {
+		if i := strings.IndexByte(t, ';'); i > 0 && (t[i-1] == ' ' || t[i-1] == '\t') {
+			return true
+		}
+	}
+	return false
+}
+
+// OWSOfferParams are parameter suffixes with whitespace before the ';'.
+var OWSOfferParams = []string{" ; charset=utf-8", "\t;charset=utf-8", " ;version=1"}
 
 // CleanOffers reports whether every offer is a lower-case type/subtype (optionally followed by
 // ";params") resp. a lower-case coding: the offers the strong oracle is defined on.
@@ -549,7 +587,10 @@ func (h Header) Render(ows func() string) []string {
 // Features names the syntactic feature classes present in the ranges, most telling first.
 func Features(lines []string, ranges []Range) []string {
 	var f []string
-	qsuf, long, mid, after, before, quoted := false, false, false, false, false, false
+	if HasEmptyElements(lines) {
+		f = append(f, "empty-list-element")
+	}
+	qsuf, long, mid, after, before, quoted, huge := false, false, false, false, false, false, false
 	for _, rg := range ranges {
 		for _, pa := range append(append([]Param{}, rg.Before...), rg.After...) {
 			if len(pa.Name) > 1 && strings.HasSuffix(pa.Name, "q") {
@@ -559,7 +600,9 @@ func Features(lines []string, ranges []Range) []string {
 				quoted = true
 			}
 		}
-		if rg.HasQ && FractionDigits(rg.QText) >= 19 {
+		if rg.HasQ && FractionDigits(rg.QText) >= 100 {
+			huge = true
+		} else if rg.HasQ && FractionDigits(rg.QText) >= 19 {
 			long = true
 		} else if rg.HasQ && FractionDigits(rg.QText) >= 16 {
 			mid = true // 16-18 digits: the digits as an integer may exceed 2^53
@@ -574,10 +617,13 @@ func Features(lines []string, ranges []Range) []string {
 	if qsuf {
 		f = append(f, "param-name-ending-in-q")
 	}
-	if long {
+	if huge {
+		f = append(f, "qvalue-100plus-fraction-digits")
+	}
+	if long && !huge {
 		f = append(f, "qvalue-19plus-fraction-digits")
 	}
-	if mid && !long {
+	if mid && !long && !huge {
 		f = append(f, "qvalue-16to18-fraction-digits")
 	}
 	if after {
@@ -640,13 +686,28 @@ func Shrink(lines []string, offers []string, media bool, fails func(lines []stri
 		return lines, offers
 	}
 	h := cloneHeader(p.Lines)
+	render := func(c Header) []string { return c.Render(nil) }
 	try := func(c Header) bool {
-		t := c.Render(nil)
+		t := render(c)
 		q := ParseStrict(t, media)
 		return q.Judged && fails(t, offers)
 	}
 	if !try(h) {
-		return lines, offers
+		if p.Empties == 0 {
+			return lines, offers
+		}
+		// the failure needs the empty list elements: keep one where it matters (after, else before, the ranges of a line)
+		found := false
+		for _, rd := range []func(Header) []string{renderEmpties(",,", ""), renderEmpties(",", ",")} {
+			render = rd
+			if try(h) {
+				found = true
+				break
+			}
+		}
+		if !found {
+			return lines, offers
+		}
 	}
 	// one line
 	if len(h) > 1 {
@@ -668,7 +729,7 @@ func Shrink(lines []string, offers []string, media bool, fails func(lines []stri
 			break
 		}
 	}
-	out := h.Render(nil)
+	out := render(h)
 	// offers again (the smaller header may need fewer)
 	for i := 0; i < len(offers) && len(offers) > 1; {
 		cand := append(append([]string{}, offers[:i]...), offers[i+1:]...)
@@ -679,6 +740,57 @@ func Shrink(lines []string, offers []string, media bool, fails func(lines []stri
 		}
 	}
 	return out, offers
+}
+
+// renderEmpties renders a header with empty list elements: sep between the ranges of a line, lead before the first.
+func renderEmpties(sep, lead string) func(Header) []string {
+	return func(h Header) []string {
+		out := make([]string, 0, len(h))
+		for _, l := range h {
+			parts := make([]string, len(l))
+			for i, rg := range l {
+				parts[i] = RenderRange(rg, nil)
+			}
+			out = append(out, lead+strings.Join(parts, sep))
+		}
+		return out
+	}
+}
+
+// topLevelCommas returns the positions of the commas of a field line that are outside quoted strings.
+func topLevelCommas(s string) []int {
+	var out []int
+	inq := false
+	for i := 0; i < len(s); i++ {
+		switch {
+		case inq && s[i] == '\\':
+			i++
+		case s[i] == '"':
+			inq = !inq
+		case !inq && s[i] == ',':
+			out = append(out, i)
+		}
+	}
+	return out
+}
+
+// HasEmptyElements reports whether a field line holds an empty list element: a top-level comma that starts the
+// line, ends it, or follows another one (optional whitespace in between).
+func HasEmptyElements(lines []string) bool {
+	for _, s := range lines {
+		prev := -1 // end of the previous comma (start of line)
+		cs := topLevelCommas(s)
+		for _, c := range cs {
+			if strings.Trim(s[prev+1:c], " \t") == "" {
+				return true
+			}
+			prev = c
+		}
+		if len(cs) > 0 && strings.Trim(s[prev+1:], " \t") == "" {
+			return true
+		}
+	}
+	return false
 }
 
 // reductions lists every one-step simplification of h, biggest steps first.
